@@ -10,6 +10,8 @@ _seen = {}
 
 
 def c19_class(r):
+    if r.get("op") == "dl":
+        return r.get("cls")
     tags = sorted(r.get("cls") or []) or [r.get("op", "?")]
     t = min(tags, key=lambda x: (_seen.get(x, 0), x))
     _seen[t] = _seen.get(t, 0) + 1
@@ -40,7 +42,7 @@ REQUIRED = [
     "repo-second", "repo-both-first", "missing-needed", "missing-only-discarded",
     # round trips
     "roundtrip-coord", "roundtrip-scope", "roundtrip-found",
-] + TABLE
+] + TABLE + ["dl:xml:none:none", "dl:vec:none:none", "dl:json:hit:err", "dl:jar:hit:ok", "dl:vec:hit:ok", "dl:xml:err:err", "dl:xml:hit:ok"]
 
 KNOWN_SIG = "impl|resolve|inherited-dependency-filled-from-declaring-ancestors-management"
 
@@ -135,7 +137,11 @@ def c19_corrupt(recs, seed):
 
 P = {
     "dir": "maven",
-    "mc": [{"module": "MC_Maven", "cfg": "MC_Maven.cfg", "workers": 6}],
+    "mc": [{"module": "MC_Maven", "cfg": "MC_Maven.cfg", "workers": 6},
+           # growth: the download cache behind the binary's implementation of the resolver's Downloader trait (spec/system/DownloadCache.tla)
+           {"module": "MC_DownloadCache", "dir": "system", "cfg": "MC_DownloadCache.cfg", "s2i": False, "workers": 4},
+           {"module": "MC_DownloadCache", "dir": "system", "cfg": "MC_DownloadCache_seq.cfg", "s2i": False, "workers": 4},
+           {"module": "MC_DownloadCache", "dir": "system", "cfg": "MC_DownloadCache_dir.cfg", "trace": False, "workers": 1}],
     "trace": {"module": "Trace_Maven", "cfg": "Trace_Maven.cfg"},
     "trace_s2i": 300,
     "i2s_n": {"quick": 400, "thorough": 4000},
